@@ -759,7 +759,7 @@ def main(outdir, status_path=None):
             continue
         changed[fname] = write_if_changed(os.path.join(outdir, fname), text)
     try:
-        import code_profiles
+        import profiles as code_profiles
         import pylean
         texts, st = pylean.generate(code_profiles.PROFILES, code_profiles.FILES)
         STATUS["functions"].update(st)
